@@ -945,7 +945,10 @@ func Pipe() (*Conn, *Conn) {
 		panic("simnet: no simulation active")
 	}
 	node := zzsim.Node()
-	a, b := nw.newPair(Addr{"pipe", "pipe"}, Addr{"pipe", "pipe"}, true, node, node)
+	// (every pipe has addresses of its own: the code under test may tell its
+	// connections apart by them)
+	n := len(nw.Conns())
+	a, b := nw.newPair(Addr{"pipe", fmt.Sprintf("pipe-%d-a", n)}, Addr{"pipe", fmt.Sprintf("pipe-%d-b", n)}, true, node, node)
 	a.faultable, b.faultable = false, false
 	return a, b
 }
